@@ -732,7 +732,7 @@ PROPS = {
             "Cors::get_headers / postcondition / hvs(res@) == cors_headers_expected(*request)  (no Origin header => no grants)",
         ],
         "assumptions": [
-            "the process environment is what bootstrap() wrote (precedence of sources is C12, not covered): grants are proved relative to the values env::var returns",
+            "the process environment is what bootstrap() wrote (precedence of sources is property C12, decided by its own check over unit `settings`): grants are proved relative to the values env::var returns",
             "Request::get_header returns the first header matching up to letter case (assumed here, proved in unit request_parse)",
         ],
     },
